@@ -215,6 +215,50 @@ def rename_case(item):
     return dict(ok=True)
 
 
+def twin_case(item):
+    """duplicate, then a step restricted to ONE of the twins: the other twin - descriptor and rows - stays the exact copy"""
+    from dataflows import Flow
+    import dataflows as DF
+    setup_repo()
+    n, pos, to_end, which, edit = item['n'], item['pos'], item['to_end'], item['which'], item['edit']
+    srcs = [[dict(id=i * 100 + k, v='s%d' % k) for k in range(3)] for i in range(1, n + 1)]
+    src_name = 'res_%d' % (pos + 1)
+    target = 'dup' if which == 'copy' else src_name
+    step = {'add_field': lambda: DF.add_field('flag', 'string', 'x', resources=target),
+            'delete_fields': lambda: DF.delete_fields(['v'], resources=target),
+            'set_type': lambda: DF.set_type('id', type='string', transform=str, resources=target),
+            'rename_fields': lambda: DF.rename_fields({'v': 'w'}, resources=target),
+            'update_schema': lambda: DF.update_schema(target, missingValues=['', '-']),
+            'set_primary_key': lambda: DF.set_primary_key(['id'], resources=target)}[edit]()
+    try:
+        with contextlib.redirect_stdout(io.StringIO()):
+            res, dp, _ = Flow(*[[dict(r) for r in s_] for s_ in srcs], DF.duplicate(src_name, 'dup', duplicate_to_end=to_end), step).results()
+    except Exception as e:
+        return dict(ok=False, why='raised %s: %s' % (type(e).__name__, str(e)[:200]))
+    names = [r['name'] for r in dp.descriptor['resources']]
+    base = ['res_%d' % i for i in range(1, n + 1)]
+    want_names = base + ['dup'] if to_end else base[:pos + 1] + ['dup'] + base[pos + 1:]
+    if names != want_names:
+        return dict(ok=False, why='resource order after duplicate differs', got=names, want=want_names)
+    by = {r['name']: (r, rows) for r, rows in zip(dp.descriptor['resources'], res)}
+    other = src_name if which == 'copy' else 'dup'
+    d, rows = by[other]
+    fields = [(f['name'], f['type']) for f in d['schema']['fields']]
+    if fields != [('id', 'integer'), ('v', 'string')] or d['schema'].get('missingValues', ['']) != [''] or d['schema'].get('primaryKey'):
+        return dict(ok=False, why='the descriptor of the twin that was NOT selected changed', resource=other, got=dict(fields=fields, schema={k: v for k, v in d['schema'].items() if k != 'fields'}))
+    if rows != srcs[pos]:
+        return dict(ok=False, why='the rows of the twin that was NOT selected changed', resource=other, got=rows[:2])
+    d, rows = by[target]
+    fields = [f['name'] for f in d['schema']['fields']]
+    wantf = {'add_field': ['id', 'v', 'flag'], 'delete_fields': ['id'], 'rename_fields': ['id', 'w']}.get(edit, ['id', 'v'])
+    if fields != wantf or any(sorted(r_.keys()) != sorted(wantf) for r_ in rows) or len(rows) != 3:
+        return dict(ok=False, why='the edited twin is not what the edit defines', resource=target, got=dict(fields=fields, rows=rows[:1]))
+    for i in range(n):
+        if i != pos and by[base[i]][1] != srcs[i]:
+            return dict(ok=False, why='an unrelated resource changed', resource=base[i])
+    return dict(ok=True)
+
+
 def run():
     rep = Report(PROP)
     t = rep.tier
@@ -266,6 +310,16 @@ def run():
         if not out['ok']:
             rep.violation(it, dict(program='%d resources, update_resource(%d, name=...), then %s' % (it['n'], it['pos'], it['follow']),
                                    **{k_: v for k_, v in out.items() if k_ != 'ok'}), category='update_resource/%s' % out['why'][:40])
+    tw = [dict(n=n, pos=p_, to_end=e, which=w, edit=ed) for n in (1, 2, 3) for p_ in range(n) for e in (False, True) for w in ('copy', 'original')
+          for ed in ('add_field', 'delete_fields', 'set_type', 'rename_fields', 'update_schema', 'set_primary_key')]
+    for it, out in zip(tw, pmap(twin_case, tw, chunksize=4)):
+        if '__harness_error__' in out:
+            raise tlc.MachineryError('harness error: ' + out['__harness_error__'])
+        rep.count(1, traces=1)
+        rep.mark_distinct(dict(twin=it))
+        if not out['ok']:
+            rep.violation(dict(twin=it), dict(program='%d resources, duplicate(res_%d, to_end=%s), then %s on the %s only' % (it['n'], it['pos'] + 1, it['to_end'], it['edit'], it['which']),
+                                              **{k_: v for k_, v in out.items() if k_ != 'ok'}), category='duplicate-then-edit-one-twin/%s' % out['why'][:40])
     sc = [dict(n=n, k=k) for n in (0, 1, 2) for k in (1, 2, 3)]
     for it, out in zip(sc, pmap(sources_case, sc, procs=1)):
         if '__harness_error__' in out:
@@ -284,7 +338,8 @@ def replay(path):
     setup_repo()
     rec = json.load(open(path))
     c = rec['case']
-    out = replay_case(c) if 'case' in c else after_delete_case(c)
+    out = (replay_case(c) if 'case' in c else twin_case(c['twin']) if 'twin' in c else rename_case(c) if 'follow' in c
+           else sources_case(c) if 'k' in c else after_delete_case(c))
     print(json.dumps(out, default=str)[:1500])
     if not out['ok']:
         print('VIOLATION property=%s replay=%s' % (PROP, path))
